@@ -98,6 +98,12 @@ class Gen:
                 S += ["resp:%d:%s:69:4:%d" % (i, first, r.randrange(1, 100))]
                 for n in range(r.randrange(0, 3)):
                     S += ["resp:%d:%s:69:4:%d" % (i, "non" if udp else "x", 100 + n)]
+                    if bw and r.random() < 0.6:
+                        # a notification that is complete in its first block (Observe + Block2 num 0, no more): body exactly
+                        # one block, or smaller; then housekeeping past the block-wise expiry
+                        S += ["nb0:%d:%s:%d:%d" % (i, r.choice(["non", "con"]) if udp else "x", r.choice([16, 16, 7]), 200 + n)]
+                        if r.random() < 0.6:
+                            S += ["sleep:4000", "tick"]
                 if r.random() < 0.6:
                     S += ["obscancel:%d" % i]
                     if r.random() < 0.7:
@@ -112,6 +118,23 @@ class Gen:
             else:
                 self.failing += 1
                 S += ["sleep:1000", "cancel:%d" % i]
+        elif k < 0.86 and r.random() < 0.55:    # asynchronous ping: over with its pong, or when the returned cancel is called
+            S = ["aping:%d" % i]
+            m = r.random()
+            if m < 0.4:
+                S += ["pong:%d" % i]                                          # answered, cancel never called
+                if r.random() < 0.3:
+                    S += ["pong:%d" % i]                                      # duplicated pong
+            elif m < 0.6:
+                S += ["pong:%d" % i, "apcancel:%d" % i]                      # answered, then cancelled as well
+            elif m < 0.8:
+                self.failing += 1
+                S += ["sleep:%d" % r.choice([100, 3000]), "apcancel:%d" % i]  # given up
+                if r.random() < 0.5:
+                    S += ["pong:%d" % i]                                      # late pong
+            else:
+                self.failing += 1
+                S += ["sleep:3000", "tick"]                                   # never answered: abandoned at the end of the history
         elif k < 0.86:    # ping
             S = ["ping:%d:%d" % (i, dl)]
             m = r.random()
@@ -201,6 +224,19 @@ FIXED = [
     "scn udp 1 0 0 do:1:1:a:con:0:0 do:2:1:a:con:0:0 bad:1 rst:1 settle",
     "scn tcp 1 1 1 do:1:1:a:con:0:0 do:2:2:a:con:0:0 resp:1:x:69:40:- blk2:1:1:0:x ping:4:0 pong:4 resp:2:x:69:4:- settle",
     "scn tcp 0 0 0 do:1:1:a:con:0:10 obs:2:o:10 ping:3:10 sleep:11000 settle",
+    # the ping family on every transport/block-wise combination (tcp with block-wise: the scripted peer's CSM announces
+    # Block-Wise-Transfer, so responses and pongs run through blockwiseHandle)
+    "scn tcp 1 0 0 aping:1 pong:1 settle",
+    # observe notifications that carry Block2 and are complete in their first block, followed by expiry ticks
+    "scn udp 1 0 0 obs:1:o:0 resp:1:pig:69:4:1 nb0:1:non:16:2 sleep:4000 tick nb0:1:non:7:3 nb0:1:con:16:4 sleep:4000 tick settle",
+    "scn tcp 1 0 0 obs:1:o:0 resp:1:x:69:4:1 nb0:1:x:16:2 nb0:1:x:16:3 sleep:4000 tick obscancel:1 resp:1:x:69:4:- settle",
+    "scn udp 1 0 0 obs:1:o:0 resp:1:pig:69:4:1 nb0:1:non:16:2 obscancel:1 resp:1:pig:69:4:- nb0:1:non:16:3 settle",
+    "scn tcp 1 0 0 aping:1 pong:1 apcancel:1 aping:2 apcancel:2 pong:2 aping:3 sleep:3000 tick settle",
+    "scn tcp 1 0 0 ping:1:0 pong:1 ping:2:5 sleep:6000 aping:3 pong:3 do:4:4:a:con:0:0 resp:4:x:69:4:- aping:5 pong:5 pong:5 settle",
+    "scn tcp 0 0 0 aping:1 pong:1 aping:2 apcancel:2 aping:3 pong:3 apcancel:3 aping:4 settle",
+    "scn udp 0 0 0 aping:1 pong:1 aping:2 apcancel:2 pong:2 aping:3 pong:3 apcancel:3 aping:4 sleep:3000 tick settle",
+    "scn udp 1 0 0 aping:1 pong:1 ping:2:0 pong:2 aping:3 close",
+    "scn tcp 1 0 0 aping:1 close",
     "scn tcp 1 0 0 obs:1:o:0 resp:1:x:69:4:3 resp:1:x:69:4:4 obscancel:1 resp:1:x:69:4:- do:2:2:a:con:40:0 cont:2:0 close",
     "disc timeout", "disc cancel", "disc duptoken", "disc badaddr", "disc notoken", "disc many",
 ]
@@ -299,15 +335,59 @@ def explore(ctx, art):
                        "ended other than by success (appendix A).")
 
 
-def run(ctx):
+LASTGOOD = os.path.join(common.VERIF, "checks", "lastgood", "C13")
+
+
+def _restore_generated():
+    """The search for a failing history must not depend on today's source being translatable: when the extractor fails closed
+    (and writes nothing) the last good copy of the generated shape is put in place, so that model, judge and driver still
+    build; the translator failure itself is reported by standard_prepare."""
+    for f in GENERATED:
+        dst = os.path.join(common.GENERATED, f)
+        src = os.path.join(LASTGOOD, f)
+        if not os.path.exists(dst) and os.path.exists(src):
+            with common.Lock():
+                if not os.path.exists(dst):
+                    open(dst, "w").write(open(src).read())
+
+
+def _save_lastgood(ctx):
+    if any(k == "translator" for k, _, _ in ctx.broken):
+        return
+    os.makedirs(LASTGOOD, exist_ok=True)
+    for f in GENERATED:
+        src = os.path.join(common.GENERATED, f)
+        dst = os.path.join(LASTGOOD, f)
+        try:
+            cur = open(src).read()
+            if not os.path.exists(dst) or open(dst).read() != cur:
+                open(dst, "w").write(cur)
+        except OSError:
+            pass
+
+
+def _prepare(ctx):
+    _restore_generated()
     art = common.standard_prepare(ctx, MODULES, hx=False, test=True, generated=GENERATED)
+    if not art.get("driver"):
+        old = os.path.join(common.LEAN, ".lake", "build", "bin", "drv_c13")
+        if os.path.exists(old):
+            art["driver"] = old
+            ctx.notes.append("driver could not be rebuilt; the search uses the previously built drv_c13")
+    if os.environ.get("VERIF_REPO") is None:
+        _save_lastgood(ctx)
+    return art
+
+
+def run(ctx):
+    art = _prepare(ctx)
     if art.get("test") and art.get("driver"):
         explore(ctx, art)
     return common.finish(ctx)
 
 
 def replay(ctx, rep):
-    art = common.standard_prepare(ctx, MODULES, hx=False, test=True, generated=GENERATED)
+    art = _prepare(ctx)
     lines = rep.get("input") or []
     if not lines:
         print("replay file names no failing input:", rep.get("no_longer_checks"))
